@@ -28,7 +28,7 @@ def _quiet():
         pass
 
 
-def run(cases, run_case, nontrivial=lambda c: True, workers=None, max_failures=20, key=lambda c: json.dumps(c, sort_keys=True, default=str)):
+def run(cases, run_case, nontrivial=lambda c: True, workers=None, max_failures=400, key=lambda c: json.dumps(c, sort_keys=True, default=str)):
     if os.environ.get("BOUNDED_CASE"):
         cases = [json.loads(os.environ["BOUNDED_CASE"])]
     cases = list(cases)
